@@ -317,3 +317,5 @@ J('bitutil.MostSignificantBit.contract', 'h_enf_MostSignificantBit', ['C17', 'C0
 J('bitutil.CountOneBits32.contract', 'h_enf_CountOneBits32', ['C17'], enforce='CountOneBits32', unwind=34, unwind_reason='spec loop over 32 bit positions')
 J('bitutil.ReverseBits32.contract', 'h_enf_ReverseBits32', ['C17'], enforce='ReverseBits32')
 J('bitutil.CopyBits32.contract', 'h_enf_CopyBits32', ['C17'], enforce='CopyBits32')
+for f in ['remaining_size', 'bit_decoder_active', 'Advance']:
+    J('decbuf.%s.contract' % f, 'h_enf_DecoderBuffer_' + f, ['C17', 'C02'], enforce='DecoderBuffer_' + f)
